@@ -10,6 +10,7 @@ import CogentModel.Gen.C13Fmt
 import CogentModel.Gen.C13Sql
 import CogentModel.Gen.C13Names
 import CogentModel.Model.DataStoreSqlite
+import CogentModel.Proofs.DataStoreGen
 namespace CogentModel.C13
 open CogentModel CogentModel.KV
 open CogentModel.DataStore (sResults sLogs startsWith pathName splitExt pathSuffixes pathSuffixDot pathSuffixesDot reSubLeadDot lower
@@ -17,27 +18,6 @@ open CogentModel.DataStore (sResults sLogs startsWith pathName splitExt pathSuff
 open CogentModel.DataStoreSqlite
 
 /-! ## get_format_suffixes -/
-
-/-- python `xs[-1]` -/
-theorem pyIdx_last {α} (xs : List α) : pyIdx xs (-1) = xs.getLast? := by
-  unfold pyIdx
-  cases h : xs.getLast? with
-  | none => simp [List.getLast?_eq_none_iff] at h; subst h; simp
-  | some a =>
-    obtain ⟨l, rfl⟩ := List.getLast?_eq_some_iff.mp h
-    simp
-
-theorem pyIdx_zero {α} (xs : List α) : pyIdx xs 0 = xs.head? := by
-  unfold pyIdx; cases xs <;> simp
-
-theorem pathSuffixDot_isEmpty (n : Str) : (pathSuffixDot n).isEmpty = (splitExt n).isNone := by
-  unfold pathSuffixDot; cases splitExt n <;> simp
-
-/-- the two suffix lists agree: last two dotted suffixes, dot removed, lower-cased -/
-theorem fmt_suffixes_eq (n : Str) :
-    (pyLastN 2 (pathSuffixesDot n)).map (fun sfx => lower (reSubLeadDot ([] : Str) sfx))
-      = ((pathSuffixes n).map (fun s => s.map Char.toLower)).drop (((pathSuffixes n).map (fun s => s.map Char.toLower)).length - 2) := by
-  simp [pyLastN, pathSuffixesDot, lower, List.map_drop, reSubLeadDot, Function.comp_def]
 
 theorem gen_get_format_suffixes_eq (n : Str) :
     (Gen.C13Fmt.get_format_suffixes n).getD (none, none) = getFormatSuffixes n := by
@@ -96,18 +76,6 @@ example : Gen.C13Fmt.get_format_suffixes "..a".toList = none := by decide
 theorem gen_sql_write_id_eq (id : Str) :
     Gen.C13Sql.write_id id = stripTable sResults id ∧ Gen.C13Sql.write_nc_id id = stripTable sResults id
       ∧ Gen.C13Sql.write_log_id id = stripTable sLogs id := ⟨rfl, rfl, rfl⟩
-
-theorem any_beq_eq_contains (l : List Str) (id : Str) : l.any (fun m => m == id) = l.contains id := by
-  induction l with
-  | nil => rfl
-  | cons a t ih =>
-    simp only [List.any_cons, List.contains_cons, ih]
-    have : (a == id) = (id == a) := by
-      by_cases h : a = id
-      · subst h; rfl
-      · have h' : ¬ id = a := fun e => h e.symm
-        rw [beq_eq_false_iff_ne.mpr h, beq_eq_false_iff_ne.mpr h']
-    rw [this]
 
 theorem gen_sql_contains_eq {D : Type} (s : Sql D) (id : Str) :
     Gen.C13Sql.abc_contains s.cCache s.ncCache id = contains s id := by
